@@ -108,7 +108,12 @@ type readOutcome struct {
 
 // evalCond evaluates a boolean SSA value for read result v == c: 1 true, 0 false, -1 unknown.
 func evalCond(cond ssa.Value, v ssa.Value, c int) int {
-	r, ok := foldValue(cond, v, c, 0)
+	return evalCondAliases(cond, map[ssa.Value]bool{v: true}, c)
+}
+
+// evalCondAliases: as evalCond, for a set of values known to hold the read result (the read itself and phis it flowed into).
+func evalCondAliases(cond ssa.Value, vs map[ssa.Value]bool, c int) int {
+	r, ok := foldValue(cond, vs, c, 0)
 	if !ok || !r.isBool {
 		return -1
 	}
@@ -120,8 +125,8 @@ func evalCond(cond ssa.Value, v ssa.Value, c int) int {
 
 // foldValue folds an expression over the read result v (taken to be c), constants, conversions, arithmetic,
 // comparisons and pure calls (purefn.go). Anything else is unknown.
-func foldValue(e ssa.Value, v ssa.Value, c int, depth int) (pval, bool) {
-	if e == v {
+func foldValue(e ssa.Value, v map[ssa.Value]bool, c int, depth int) (pval, bool) {
+	if v[e] {
 		return pval{i: int64(c)}, true
 	}
 	if depth > 8 {
@@ -178,25 +183,67 @@ func foldValue(e ssa.Value, v ssa.Value, c int, depth int) (pval, bool) {
 	return pval{}, false
 }
 
-// analyseRead evaluates the continuation of read site n for every byte value.
+// analyseRead evaluates the continuation of read site n for every byte value. The read result may be kept in a variable
+// that is a phi at a loop header (`c := next(); for pred(c) { c = next() }`): along each path the set of values holding
+// the result of THIS read is tracked (the read itself, and phis it flows into on the edge taken).
 func (a *analyzer) analyseRead(n *ssa.Call) *readOutcome {
 	out := &readOutcome{Site: n, Next: map[int][]ssa.Instruction{}}
-	fn := n.Parent()
-	for c := -1; c <= 255; c++ {
-		type pos struct {
-			b *ssa.BasicBlock
-			i int
+	type pos struct {
+		b     *ssa.BasicBlock
+		i     int
+		alias string // canonical key of the alias set
+	}
+	aliasKey := func(m map[ssa.Value]bool) string {
+		var ks []string
+		for v := range m {
+			ks = append(ks, v.Name())
 		}
-		seen := map[*ssa.BasicBlock]bool{}
-		work := []pos{{n.Block(), instrIndex(n) + 1}}
+		sort.Strings(ks)
+		return strings.Join(ks, ",")
+	}
+	for c := -1; c <= 255; c++ {
+		seen := map[string]bool{}
+		type item struct {
+			p  pos
+			vs map[ssa.Value]bool
+		}
+		start := map[ssa.Value]bool{n: true}
+		work := []item{{pos{n.Block(), instrIndex(n) + 1, aliasKey(start)}, start}}
+		follow := func(from, to *ssa.BasicBlock, vs map[ssa.Value]bool) item {
+			nv := map[ssa.Value]bool{}
+			for v := range vs {
+				if ph, isPhi := v.(*ssa.Phi); isPhi && ph.Block() == to {
+					continue // re-bound below
+				}
+				nv[v] = true
+			}
+			pi := -1
+			for k, pb := range to.Preds {
+				if pb == from {
+					pi = k
+				}
+			}
+			for _, in := range to.Instrs {
+				ph, isPhi := in.(*ssa.Phi)
+				if !isPhi {
+					break
+				}
+				if pi >= 0 && vs[ph.Edges[pi]] {
+					nv[ph] = true
+				}
+			}
+			return item{pos{to, 0, aliasKey(nv)}, nv}
+		}
 		for len(work) > 0 {
-			p := work[0]
+			it := work[0]
 			work = work[1:]
+			p := it.p
 			if p.i == 0 {
-				if seen[p.b] {
+				k := fmt.Sprintf("%d|%s", p.b.Index, p.alias)
+				if seen[k] {
 					continue
 				}
-				seen[p.b] = true
+				seen[k] = true
 			}
 			ended := false
 			for i := p.i; i < len(p.b.Instrs) && !ended; i++ {
@@ -217,28 +264,29 @@ func (a *analyzer) analyseRead(n *ssa.Call) *readOutcome {
 					out.Next[c] = append(out.Next[c], x)
 					ended = true
 				case *ssa.If:
-					switch evalCond(x.Cond, n, c) {
+					switch evalCondAliases(x.Cond, it.vs, c) {
 					case 1:
-						work = append(work, pos{p.b.Succs[0], 0})
+						work = append(work, follow(p.b, p.b.Succs[0], it.vs))
 					case 0:
-						work = append(work, pos{p.b.Succs[1], 0})
+						work = append(work, follow(p.b, p.b.Succs[1], it.vs))
 					default:
 						// a test on unrelated state: both continuations are possible for this byte; a test that involves
 						// the byte but cannot be evaluated makes the classification of the byte unknown
-						if condMentions(x.Cond, n, 0) {
-							out.Unknown.add(c)
+						for v := range it.vs {
+							if condMentions(x.Cond, v, 0) {
+								out.Unknown.add(c)
+							}
 						}
-						work = append(work, pos{p.b.Succs[0], 0}, pos{p.b.Succs[1], 0})
+						work = append(work, follow(p.b, p.b.Succs[0], it.vs), follow(p.b, p.b.Succs[1], it.vs))
 					}
 					ended = true
 				case *ssa.Jump:
-					work = append(work, pos{p.b.Succs[0], 0})
+					work = append(work, follow(p.b, p.b.Succs[0], it.vs))
 					ended = true
 				}
 			}
 		}
 	}
-	_ = fn
 	return out
 }
 
